@@ -13,8 +13,10 @@
 //! (non-variant) types, shared by C07 and C04.
 
 use serde_json::{json, Value as J};
+#[allow(unused_imports)]
 use vcommon::{hash64, Args, Report, Violation};
 
+#[allow(unused_imports)]
 use crate::rv::{self, FdTable, Ty, RV};
 
 // ------------------------------------------------------------------------------------------
@@ -381,7 +383,7 @@ mod gv {
         // the totals 65534‥65537 (big element trees are expensive in this sandbox).
         let mut ls: Vec<usize> = (225..=262).collect();
         ls.extend(65490..=65542);
-        let mut push = |name: String, l: usize, v: RV, only_core: bool, out: &mut Vec<Case>| {
+        let push = |name: String, l: usize, v: RV, only_core: bool, out: &mut Vec<Case>| {
             let total = refgv::normal_form(&v, false).len();
             let keep = if only_core {
                 (65534..=65537).contains(&total)
